@@ -2,9 +2,6 @@
 formatting and serde payloads. Byte strings and hex strings are argument lists of byte values."""
 from .common import Case
 from .gen import *
-import os
-
-NOSKIP = bool(os.environ.get("C16_NOSKIP"))   # run the reported defect classes too (they then show as VIOLATION)
 
 NS = [1, 2, 3, 4, 5, 6, 7, 8, 16, 32]          # Uint<N> / Int<N> widths of the quantifier
 ARR_NS = [1, 2, 3, 4, 6, 7, 8, 16, 32]         # widths with a hybrid-array ArrayEncoding impl
@@ -106,19 +103,6 @@ def bad_hex_variants(rng, good, count):
     return out
 
 
-def odd_outcome(s, n, le_mode):
-    """documented outcome of Odd::from_{be,le}_hex: ('ok', value) or 'panic'"""
-    if len(s) != 16 * n or any(c not in VALID_HEX for c in s):
-        return 'panic'
-    bs = bytes.fromhex(bytes(s).decode())
-    v = int.from_bytes(bs, 'little' if le_mode else 'big')
-    return ('ok', v) if v & 1 else 'panic'
-
-
-def boxed_hex_limbs(p):
-    return p // 64          # what src/uint/boxed/encoding.rs:113 computes
-
-
 def gen(tier, rng):
     scale = 1 if tier == 'quick' else 10
     cases = []
@@ -173,11 +157,8 @@ def gen(tier, rng):
             add(Case('nonzero.from_le_bytes', [be(a), n], mop='nonzero.from_le_bytes'))
             if n in ARR_NS:
                 add(Case('nonzero.from_be_bytes.array', [be(a), n], mop='nonzero.from_be_bytes'))
-                # DEFECT: NonZero::from_le_byte_array (src/non_zero.rs:193) decodes BIG endian; only byte
-                # strings that read the same in both directions are run (all others violate the spec)
-                pal = be(a)[:4 * n]
-                pal = pal + pal[::-1] if not NOSKIP else be(a)
-                add(Case('nonzero.from_le_byte_array', [pal, n], mop='nonzero.from_le_byte_array'))
+                add(Case('nonzero.from_le_byte_array', [be(a), n], mop='nonzero.from_le_byte_array'))
+                add(Case('nonzero.from_le_byte_array', [le(a), n], mop='nonzero.from_le_byte_array'))
         # size strictness: every length around 8n, for all decoders
         for ln in sorted(set([0, 1, 7, 8, 8 * n - 8, 8 * n - 1, 8 * n, 8 * n + 1, 8 * n + 7, 8 * n + 8, 8 * n + 9, 16 * n])):
             for _ in range(2 * scale if ln != 8 * n else 1):
@@ -195,10 +176,15 @@ def gen(tier, rng):
                 add(Case('uint.from_le_hex', [s, n], mop='uint.from_le_hex', dbg=True))
                 add(Case('uint.from_be_hex.int', [s, n], mop='uint.from_be_hex'))
                 add(Case('odd.from_be_hex', [s, n], mop='odd.from_be_hex'))
-                # DEFECT: Odd::from_le_hex (src/odd.rs:73) calls Uint::from_be_hex: the input is read big
-                # endian. Run only the inputs on which both readings give the same documented outcome.
-                if NOSKIP or odd_outcome(s, n, True) == odd_outcome(s, n, False):
-                    add(Case('odd.from_le_hex', [s, n], mop='odd.from_le_hex'))
+                add(Case('odd.from_le_hex', [s, n], mop='odd.from_le_hex'))
+                # ... and with the parity bit of the least significant byte (first / last byte) forced
+                for k in (0, 1):
+                    b2 = be(a)
+                    b2[0] = (b2[0] & 0xfe) | k
+                    b2[-1] = (b2[-1] & 0xfe) | (1 - k)
+                    s2 = hexstr(rng, b2, mode)
+                    add(Case('odd.from_le_hex', [s2, n], mop='odd.from_le_hex'))
+                    add(Case('odd.from_be_hex', [s2, n], mop='odd.from_be_hex'))
             good = hexstr(rng, be(a))
             for s in bad_hex_variants(rng, good, 6):
                 add(Case('uint.from_be_hex', [s, n], mop='uint.from_be_hex', dbg=True))
@@ -206,12 +192,6 @@ def gen(tier, rng):
                 add(Case('uint.from_be_hex.int', [s, n], mop='uint.from_be_hex'))
                 add(Case('odd.from_be_hex', [s, n], mop='odd.from_be_hex'))
                 add(Case('odd.from_le_hex', [s, n], mop='odd.from_le_hex'))
-        # palindromic byte strings for the little-endian Odd decoder (odd and even)
-        for _ in range(3 * scale):
-            half = rand_bytes(rng, 4 * n)
-            half[0] = half[0] | 1 if rng.random() < 0.7 else half[0] & 0xfe
-            s = hexstr(rng, half + half[::-1])
-            add(Case('odd.from_le_hex', [s, n], mop='odd.from_le_hex'))
         # wrong sizes (valid characters, and an invalid one)
         for ln in sorted(set([0, 1, 2, 15, 16, 16 * n - 16, 16 * n - 2, 16 * n - 1, 16 * n + 1, 16 * n + 2, 16 * n + 16, 32 * n])):
             if ln == 16 * n:
@@ -220,6 +200,7 @@ def gen(tier, rng):
             add(Case('uint.from_be_hex', [s, n], mop='uint.from_be_hex', dbg=True))
             add(Case('uint.from_le_hex', [s, n], mop='uint.from_le_hex', dbg=True))
             add(Case('odd.from_be_hex', [s, n], mop='odd.from_be_hex'))
+            add(Case('odd.from_le_hex', [s, n], mop='odd.from_le_hex'))
     # every ASCII character in the high and in the low nibble position of every byte of a U64 / first,
     # middle, last byte of a U128
     for c in range(128):
@@ -294,14 +275,8 @@ def gen(tier, rng):
                 if kind in (8, 16, 32, 64, 128):
                     add(Case('uint.from_prim.from', [parg(bits, v), kind, n], mop='uint.from_prim', dbg=True))
                 if kind in (8, 16, 32, 64, 128):
-                    sv = v - (1 << kind) if v >> (kind - 1) else v
-                    # DEFECT: Int::<1>::from_i128 / From<i128> (src/int/from.rs:43-47) has no LIMBS >= 2
-                    # assertion: a value outside the i64 range is truncated silently in release builds
-                    if not NOSKIP and kind == 128 and n == 1 and not (-(1 << 63) <= sv < (1 << 63)):
-                        continue
-                    dbg_ok = not (kind == 128 and n == 1)
                     add(Case('int.from_prim', [parg(bits, v), kind, n], mop='int.from_prim', dbg=True))
-                    add(Case('int.from_prim.from', [parg(bits, v), kind, n], mop='int.from_prim', dbg=dbg_ok))
+                    add(Case('int.from_prim.from', [parg(bits, v), kind, n], mop='int.from_prim', dbg=True))
         add(Case('uint.from_prim.from', [[word(rng)], 1, n], mop='uint.from_prim', dbg=True))
     for kind in (1, 8, 16, 32, 64, 128):
         bits = 64 if kind == 1 else kind
@@ -402,17 +377,11 @@ def gen(tier, rng):
 
     # ------------------------------------------------------------------ BoxedUint from_be_hex
     for p in sorted(set([0, 1, 63, 64, 65, 100, 127, 128, 129, 191, 192, 256, 320, 448, 512, 513, 520] + [64 * k for k in range(0, 9)])):
-        nl_doc = (p + 63) // 64
-        nl_impl = boxed_hex_limbs(p)
+        nl_doc = (p + 63) // 64          # bits_precision rounded up to whole limbs
+        nl_dn = p // 64                  # ... a decoder that rounded down would expect this many
         lens = set([0, 1, 2, 15, 16, 17, 16 * nl_doc - 1, 16 * nl_doc + 1, 16 * nl_doc + 16])
-        lens |= set(16 * nl for nl in (nl_doc, nl_impl, max(nl_doc - 1, 0), nl_doc + 1))
+        lens |= set(16 * nl for nl in (nl_doc, nl_dn, max(nl_doc - 1, 0), nl_doc + 1))
         for ln in sorted(x for x in lens if x >= 0):
-            # DEFECT: BoxedUint::from_be_hex (src/uint/boxed/encoding.rs:113) rounds bits_precision DOWN to
-            # whole limbs (every other constructor rounds up): with a precision that is no multiple of 64 it
-            # panics on a string of the rounded-up size and returns a narrower (even zero-limb) value for a
-            # string of the rounded-down size. Exactly these two string sizes are skipped for such precisions.
-            if p % 64 != 0 and ln in (16 * nl_doc, 16 * nl_impl) and not NOSKIP:
-                continue
             for _ in range(2 * scale if ln % 16 == 0 else 1):
                 strs = [hexstr(rng, rand_bytes(rng, ln // 2)) + [rng.choice(HEXL)] * (ln % 2)]
                 strs += bad_hex_variants(rng, strs[0], 2)
